@@ -131,6 +131,9 @@ func (c *Ctx) kfLines(identity bool) []kfLine {
 		{" #" + good, "indented-comment", data, true, false},
 		{"\t" + good, "tab", data, true, false},
 		{good + "\r\r", "crcr", data, true, false},
+		// the two halves of the string in different cases (Bech32 forbids mixed case)
+		{swapCase(good[:sep]) + good[sep:], "prefix-case-flipped", data, true, false},
+		{good[:sep] + swapCase(good[sep:]), "data-case-flipped", swapCase(data), true, false},
 	}
 	if identity {
 		pub, _ := bech32.Encode("age", key)
@@ -260,6 +263,8 @@ func (c *Ctx) kfCLI() {
 		{good[:len(good)-2], "bad-x25519"}, {"ssh-ed25519 AAAA", "bad-ssh"}, {badEd, "malformed-supported-ssh"}, {dsa, "unsupported-ssh-type"},
 		{"ssh-ed25519", "ssh-no-blob"}, {"github:someone", "github"}, {"garbage", "garbage"}, {edLine + " comment here", "ssh-with-comment"},
 		{strings.Repeat("x", 8193), "too-long-8193"}, {"#" + strings.Repeat("x", 9000), "long-comment"},
+		{" " + edLine, "leading-space-ssh"}, {"\t" + rsaLine, "leading-tab-ssh"}, {"  " + edLine, "leading-spaces-ssh"}, {" " + good, "leading-space-x25519"},
+		{edLine + "\r", "ssh-crlf"}, {good + "\r", "x25519-crlf"},
 	}
 	n := c.vol(60, 600)
 	for i := 0; i < n; i++ {
@@ -306,7 +311,7 @@ func (c *Ctx) kfCLI() {
 		expectKeys, firstBad := 0, 0
 		for j, kd := range kinds {
 			switch kd {
-			case "x25519", "ssh-ed25519", "ssh-rsa", "ssh-with-comment":
+			case "x25519", "ssh-ed25519", "ssh-rsa", "ssh-with-comment", "ssh-crlf", "x25519-crlf": // CR LF line endings are accepted
 				expectKeys++
 			case "comment", "empty", "long-comment", "unsupported-ssh-type":
 			default:
